@@ -5,6 +5,8 @@ import (
 	"go/token"
 	"go/types"
 	"math"
+	"strconv"
+	"strings"
 
 	"golang.org/x/tools/go/ssa"
 
@@ -51,6 +53,9 @@ func c16(c *Ctx) {
 	R.Explain("R16.4", "loops over resolved []SeqInterval / []UIDInterval visit every member: the only exits besides exhaustion are returns (no break that would make the result depend on the order in which the client wrote the set).")
 
 	c.boundedAccumulation("R16.1")
+	c.seqNumbersAreNonZero("R16.6")
+	c.intervalsAreOrdered("R16.7")
+	c.uidSetsSkipMissing("R16.8")
 
 	// ---- R16.1b / R16.3 conversions ---------------------------------------------------
 	convs, narrow := 0, 0
@@ -861,4 +866,215 @@ func (c *Ctx) boundedAccumulation(rule string) {
 			"the accumulated number is compared with a constant <= 2^32-1 inside the loop and the exceeding edge is an error",
 			"the digits are accumulated without an upper bound <= 2^32-1 checked on every step: numbers beyond 32 bits wrap or are truncated by the later conversion to SeqID/UID and select some other message")
 	}
+}
+
+// seqNumbersAreNonZero (R16.6): the number 0 is reserved for "*" inside the server; the parser never lets a client's 0 through.
+func (c *Ctx) seqNumbersAreNonZero(rule string) {
+	P, R := c.P, c.R
+	R.Explain(rule, "0 is not a sequence number: command.SeqNum(0) is the server's internal encoding of `*`.  Every nil-error return of command.ParseNZNumber carries a value proved >= 1 from the dominating comparisons; every conversion of a non-constant to command.SeqNum in the product takes the first result of ParseNZNumber; the constant 0 is returned by ParseSeqNumber only on the matched-`*` edge.  Otherwise `FETCH 0` would be served as `FETCH *` instead of being refused (RFC 3501 seq-number = nz-number / \"*\").")
+	nz := c.fn(rule, "imap/command.ParseNZNumber")
+	if nz == nil {
+		return
+	}
+	n := 0
+	for _, ret := range engine.Returns(nz) {
+		if !engine.IsNilConst(engine.LastResult(ret)) {
+			continue
+		}
+		n++
+		v := engine.ResultOf(ret, 0)
+		ok := engine.EntailedAt(nz, ret.Block(), v, 1, false, P.IsOwn)
+		R.Check(ok, rule, c.name(nz)+"|success value >= 1", P.Pos(ret.Pos()), "value proved >= 1 on the success return", "ParseNZNumber can return a value that is not proved >= 1 (0 would be read as `*`)")
+	}
+	R.Min(rule, "success returns of ParseNZNumber", n, 1)
+	// conversions to SeqNum
+	convs := 0
+	for _, f := range c.productFuncs() {
+		for _, b := range f.Blocks {
+			for _, in := range b.Instrs {
+				var cv ssa.Value
+				var cvX ssa.Value
+				switch t := in.(type) {
+				case *ssa.Convert:
+					cv, cvX = t, t.X
+				case *ssa.ChangeType:
+					cv, cvX = t, t.X
+				default:
+					continue
+				}
+				nt, isNamed := cv.Type().(*types.Named)
+				if !isNamed || nt.Obj().Name() != "SeqNum" || nt.Obj().Pkg() == nil || !strings.HasSuffix(nt.Obj().Pkg().Path(), "imap/command") {
+					continue
+				}
+				if _, isConst := cvX.(*ssa.Const); isConst {
+					continue
+				}
+				convs++
+				good := false
+				if ex, ok := cvX.(*ssa.Extract); ok && ex.Index == 0 {
+					if call, ok := ex.Tuple.(*ssa.Call); ok && call.Call.StaticCallee() == nz {
+						good = true
+					}
+				}
+				if !good {
+					good = engine.EntailedAt(f, b, cvX, 1, false, P.IsOwn)
+				}
+				R.Check(good, rule, c.name(f)+"|SeqNum conversion", P.Pos(cv.Pos()), "operand is ParseNZNumber's result (or proved >= 1)", "a number that may be 0 is converted to command.SeqNum: a client's 0 becomes the internal `*`")
+			}
+		}
+	}
+	R.Min(rule, "non-constant conversions to command.SeqNum", convs, 1)
+	// the constant 0 only on the matched-* edge
+	psn := c.fn(rule, "imap/command.ParseSeqNumber")
+	if psn == nil {
+		return
+	}
+	stars := 0
+	for _, ret := range engine.Returns(psn) {
+		if !engine.IsNilConst(engine.LastResult(ret)) {
+			continue
+		}
+		k, isConst := engine.ResultOf(ret, 0).(*ssa.Const)
+		if !isConst {
+			continue
+		}
+		stars++
+		ok := false
+		if k.Value != nil && k.Int64() == 0 {
+			for _, d := range psn.Blocks {
+				iff := engine.IfOf(d)
+				if iff == nil {
+					continue
+				}
+				ex, isEx := iff.Cond.(*ssa.Extract)
+				if !isEx || ex.Index != 0 {
+					continue
+				}
+				call, isCall := ex.Tuple.(*ssa.Call)
+				if !isCall {
+					continue
+				}
+				sc := call.Call.StaticCallee()
+				if sc == nil || engine.BaseName(sc) != "Matches" {
+					continue
+				}
+				if engine.EdgeDominates(d, 0, ret.Block()) {
+					ok = true
+				}
+			}
+		}
+		R.Check(ok, rule, c.name(psn)+"|constant result", P.Pos(ret.Pos()), "the constant `*` encoding is returned only when a `*` token was matched", "ParseSeqNumber returns a constant sequence number on a path that did not match the `*` token")
+	}
+	R.Min(rule, "constant (`*`) success returns of ParseSeqNumber", stars, 1)
+}
+
+// intervalsAreOrdered (R16.7): every SeqInterval / UIDInterval handed to the consumers has begin <= end.
+func (c *Ctx) intervalsAreOrdered(rule string) {
+	P, R := c.P, c.R
+	R.Explain(rule, "ranges in either order, `*` as the last message: wherever internal/state builds a SeqInterval or UIDInterval from two different values, begin <= end is proved at the construction from the branch conditions on every incoming path (case split over the phis: not swapped because begin <= end, swapped because begin > end, or collapsed to one value) by linear-inequality entailment.  The consumers slice the view with [begin-1:end] and iterate begin..end; an unordered interval selects nothing or panics instead of the messages RFC 3501 names for `5:2` or `*:3`.")
+	n := 0
+	for _, f := range c.funcsInPkg("internal/state") {
+		for _, b := range f.Blocks {
+			// collect stores to .begin / .end of the same base in this block
+			type pair struct {
+				begin, end ssa.Value
+				pos        ssa.Instruction
+				tn         string
+			}
+			pairs := map[ssa.Value]*pair{}
+			var order []ssa.Value
+			for _, in := range b.Instrs {
+				st, ok := in.(*ssa.Store)
+				if !ok {
+					continue
+				}
+				fa, ok := st.Addr.(*ssa.FieldAddr)
+				if !ok {
+					continue
+				}
+				pt, ok := fa.X.Type().Underlying().(*types.Pointer)
+				if !ok {
+					continue
+				}
+				nt, ok := pt.Elem().(*types.Named)
+				if !ok || (nt.Obj().Name() != "SeqInterval" && nt.Obj().Name() != "UIDInterval") {
+					continue
+				}
+				stt, ok := nt.Underlying().(*types.Struct)
+				if !ok {
+					continue
+				}
+				p := pairs[fa.X]
+				if p == nil {
+					p = &pair{tn: nt.Obj().Name()}
+					pairs[fa.X] = p
+					order = append(order, fa.X)
+				}
+				switch stt.Field(fa.Field).Name() {
+				case "begin":
+					p.begin = st.Val
+				case "end":
+					p.end = st.Val
+				}
+				p.pos = st
+			}
+			for _, base := range order {
+				p := pairs[base]
+				if p.begin == nil || p.end == nil {
+					if p.begin != nil || p.end != nil {
+						n++
+						R.Check(false, rule, c.name(f)+"|"+p.tn+" partly initialised", P.Pos(p.pos.Pos()), "", "only one bound of a "+p.tn+" is set here; the rule cannot relate begin and end")
+					}
+					continue
+				}
+				n++
+				ok := p.begin == p.end || engine.ProveLEAt(f, b, p.begin, p.end)
+				R.Check(ok, rule, c.name(f)+"|"+p.tn+" begin<=end", P.Pos(p.pos.Pos()), "begin <= end proved on every path", "begin <= end is not entailed by the branch conditions on every path to this "+p.tn+" (a reversed or `*`-anchored range reaches the consumers unordered)")
+			}
+		}
+	}
+	R.Min(rule, "interval constructions", n, 4)
+}
+
+// uidSetsSkipMissing (R16.8): a UID that does not exist is skipped, never an error.
+func (c *Ctx) uidSetsSkipMissing(rule string) {
+	P, R := c.P, c.R
+	R.Explain(rule, "UID sets silently skip UIDs that do not exist: the only error snapMsgList.getMessagesInUIDRange can return is the one resolveUIDInterval returned; the lookup of a single UID (getWithUID) and of a UID range (uidRange) cannot make the command fail, and the empty mailbox answers without error before anything is resolved.")
+	f := c.fn(rule, "internal/state.(*snapMsgList).getMessagesInUIDRange")
+	if f == nil {
+		return
+	}
+	n := 0
+	for _, ret := range engine.Returns(f) {
+		lr := engine.LastResult(ret)
+		if lr == nil || engine.IsNilConst(lr) {
+			continue
+		}
+		n++
+		ok := true
+		engine.Backward(lr, engine.FlowOpts{}, func(x ssa.Value) bool {
+			switch t := x.(type) {
+			case *ssa.Phi:
+				return true
+			case *ssa.Extract:
+				if call, isCall := t.Tuple.(*ssa.Call); isCall {
+					if sc := call.Call.StaticCallee(); sc != nil && engine.BaseName(sc) == "resolveUIDInterval" {
+						return false
+					}
+				}
+				ok = false
+				return false
+			case *ssa.Const:
+				if !t.IsNil() {
+					ok = false
+				}
+				return false
+			default:
+				ok = false
+				return false
+			}
+		})
+		R.Check(ok, rule, c.name(f)+"|error return#"+strconv.Itoa(n), P.Pos(ret.Pos()), "the error is resolveUIDInterval's", "getMessagesInUIDRange returns an error of its own: a UID set naming a UID that does not exist makes the command fail instead of skipping it")
+	}
+	R.Min(rule, "error returns of getMessagesInUIDRange", n, 1)
 }
